@@ -382,6 +382,9 @@ func c13(c *Ctx) {
 						return 0
 					}
 					if isCall(x, "(*sync.RWMutex).Unlock") {
+						if _, isDefer := in.(*ssa.Defer); isDefer {
+							return 3
+						}
 						return 1
 					}
 					if isCall(x, "builtin delete") && strings.HasSuffix(pathOf(x.Common().Args[0]), "p.cache") {
@@ -390,16 +393,25 @@ func c13(c *Ctx) {
 				}
 				return -1
 			}, func(s, e int) int {
+				// states: 0 unlocked, 1 locked, 2 locked with the unlock deferred to the function's exit
 				switch e {
 				case 0:
+					if s != 0 {
+						return -1
+					}
 					return 1
 				case 1:
 					if s != 1 {
 						return -1
 					}
 					return 0
-				case 2:
+				case 3:
 					if s != 1 {
+						return -1
+					}
+					return 2
+				case 2:
+					if s != 1 && s != 2 {
 						return -1
 					}
 				}
@@ -409,7 +421,7 @@ func c13(c *Ctx) {
 			for _, s := range res.ExitStates {
 				m |= s
 			}
-			r.Check("writer:"+fn.Name(), len(res.Errors) == 0 && m == 1, fn.Pos(), "cache writes are bracketed by rw.Lock / rw.Unlock")
+			r.Check("writer:"+fn.Name(), len(res.Errors) == 0 && m&^(1|1<<2) == 0 && m != 0, fn.Pos(), "cache writes are bracketed by rw.Lock / rw.Unlock (explicit or deferred)")
 		}
 		// read under RLock
 		res := runAutomaton(ifc, 0, func(in ssa.Instruction) int {
@@ -529,32 +541,39 @@ func c13(c *Ctx) {
 				return
 			}
 			cs := strings.Join(condStrings(rt.Block()), " && ")
-			facts := factsAt(rt.Block())
-			v := rt.Results[0]
-			switch {
-			case isElemOf(v, fs):
-				kinds["group"]++
-				idx := elemIdx(v)
-				sameElem := func(x ssa.Value) bool { return isElemOf(x, fs) && elemIdx(x) == idx }
-				okNE := cmpHolds(facts, sameElem, isEmptyStr, token.NEQ)
-				okName := cmpHolds(facts, func(x ssa.Value) bool { return isNameAt(x, idx) }, isTagConst, token.EQL)
-				r.Check("tagname:group-non-empty", okNE, rt.Pos(), "the capture group's text is used only when it is non-empty (otherwise fall back to the whole key): "+cs)
-				r.Check("tagname:group-named-tag", okName, rt.Pos(), "the capture group used is the one named '"+tagGroupName(w)+"'")
-			case paramIndex(tn, v) == 1:
-				kinds["whole-key"]++
-				whole := func(x ssa.Value) bool {
-					if !isElemOf(x, fs) {
-						return false
-					}
-					k, isC := constInt(elemIdx(x))
-					return isC && k == 0
+			// a named result assigned on several paths arrives as a phi: judge every incoming value with the
+			// conditions of its own path
+			for _, vc := range valueCases(rt.Results[0], rt.Block()) {
+				var facts []canonCond
+				for _, cd := range vc.Conds {
+					facts = append(facts, canonOf(cd))
 				}
-				r.Check("tagname:whole-key-when-matched", cmpHolds(facts, whole, isEmptyStr, token.NEQ), rt.Pos(), "the whole key is the tag name when the regex matched: "+cs)
-			default:
-				if s, isS := constString(v); isS && s == "" {
-					kinds["none"]++
-				} else {
-					r.Fail("tagname:unexpected-return", rt.Pos(), "returns "+pathOf(v))
+				v := vc.V
+				switch {
+				case isElemOf(v, fs):
+					kinds["group"]++
+					idx := elemIdx(v)
+					sameElem := func(x ssa.Value) bool { return isElemOf(x, fs) && elemIdx(x) == idx }
+					okNE := cmpHolds(facts, sameElem, isEmptyStr, token.NEQ)
+					okName := cmpHolds(facts, func(x ssa.Value) bool { return isNameAt(x, idx) }, isTagConst, token.EQL)
+					r.Check("tagname:group-non-empty", okNE, rt.Pos(), "the capture group's text is used only when it is non-empty (otherwise fall back to the whole key): "+cs)
+					r.Check("tagname:group-named-tag", okName, rt.Pos(), "the capture group used is the one named '"+tagGroupName(w)+"'")
+				case paramIndex(tn, v) == 1:
+					kinds["whole-key"]++
+					whole := func(x ssa.Value) bool {
+						if !isElemOf(x, fs) {
+							return false
+						}
+						k, isC := constInt(elemIdx(x))
+						return isC && k == 0
+					}
+					r.Check("tagname:whole-key-when-matched", cmpHolds(facts, whole, isEmptyStr, token.NEQ), rt.Pos(), "the whole key is the tag name when the regex matched: "+cs)
+				default:
+					if s, isS := constString(v); isS && s == "" {
+						kinds["none"]++
+					} else {
+						r.Fail("tagname:unexpected-return", rt.Pos(), "returns "+pathOf(v))
+					}
 				}
 			}
 		})
@@ -563,8 +582,14 @@ func c13(c *Ctx) {
 		okNil := false
 		eachInstr(tn, func(in ssa.Instruction) {
 			if rt, ok := in.(*ssa.Return); ok {
-				if s, isS := constString(rt.Results[0]); isS && s == "" && knownNil(factsAt(rt.Block()), func(x ssa.Value) bool { return x == ssa.Value(fs) }) {
-					okNil = true
+				for _, vc := range valueCases(rt.Results[0], rt.Block()) {
+					var facts []canonCond
+					for _, cd := range vc.Conds {
+						facts = append(facts, canonOf(cd))
+					}
+					if s, isS := constString(vc.V); isS && s == "" && knownNil(facts, func(x ssa.Value) bool { return x == ssa.Value(fs) }) {
+						okNil = true
+					}
 				}
 			}
 		})
